@@ -3,7 +3,7 @@ from .. import core
 
 TYPES = [("signed char", "i8"), ("short", "i16"), ("int", "i32"), ("long", "i64"), ("unsigned char", "u8"), ("unsigned", "u32")]
 RULE = ("kernel = (component type, workload): binary kernels evaluate + - * / unary+- and the six comparisons on every pair of fractions whose four components range over [-12,12] (exhaustive, all sign patterns of numerator and denominator) "
-        "and over a thinned boundary lattice of the component type; unary kernels run reduce, canonical, std::hash and conversion to double over all 2^16 fraction<int8_t> and over ranges/multiples k*(n,d) for wider types. "
+        "and over a thinned boundary lattice of the component type; mixed kernels pair fractions of different component types (numerator and denominator types differing within and between the operands) over thinned lattices plus values whose cross products need more than 32 bits;  unary kernels run reduce, canonical, std::hash and conversion to double over all 2^16 fraction<int8_t> and over ranges/multiples k*(n,d) for wider types. "
         "Oracle: exact rationals on 256-bit integers (sign-correct cross multiplication, Euclid gcd); hash: fractions are grouped by exact canonical value and every group must map to one hash. "
         "Domain: denominators != 0, every product/sum the operators form fits the promoted component type, reduce/canonical/hash: components != most negative. "
         "distinct_nontrivial counts cases with a negative denominator, a zero numerator, equal values, or a non-trivial gcd.")
@@ -15,6 +15,13 @@ def kernels(tier, seed):
         ks.append(("fraction<%s> binary small" % tn, 'c16::binary<%s>("fraction<%s> binary small", 0);' % (tc, tn)))
         if tn not in ("i8", "u8"):
             ks.append(("fraction<%s> binary lattice" % tn, 'c16::binary<%s>("fraction<%s> binary lattice", 1);' % (tc, tn)))
+    mixed = [("int", "int", "long long", "int"), ("long long", "int", "int", "int"), ("long", "long", "unsigned", "unsigned"), ("unsigned", "unsigned", "long", "long"),
+             ("short", "int", "int", "short"), ("unsigned", "long", "unsigned", "long"), ("signed char", "int", "long", "signed char"), ("long", "int", "unsigned", "int"),
+             ("unsigned short", "unsigned short", "long", "int"), ("int", "long", "unsigned char", "short")]
+    short = {"int": "i32", "long long": "i64", "long": "i64", "unsigned": "u32", "short": "i16", "signed char": "i8", "unsigned short": "u16", "unsigned char": "u8"}
+    for n1, d1, n2, d2 in mixed:
+        d = "fraction<%s,%s> x fraction<%s,%s> mixed" % (short[n1], short[d1], short[n2], short[d2])
+        ks.append((d, 'c16::binary_mixed<%s,%s,%s,%s>("%s");' % (n1, d1, n2, d2, d)))
     ks.append(("fraction<i8> unary all", 'c16::unary<signed char>("fraction<i8> unary all", 0);'))
     ks.append(("fraction<u8> unary all", 'c16::unary<unsigned char>("fraction<u8> unary all", 0);'))
     for tc, tn in TYPES[1:4] + TYPES[5:]:
